@@ -1,8 +1,11 @@
 package main
 
 import (
+	"bufio"
+	"bytes"
 	"errors"
 	"io"
+	"os"
 	"strconv"
 	"strings"
 
@@ -24,6 +27,50 @@ type chunkReader struct {
 	consumed int
 	reads    int
 	empties  int
+	dress    string    // "" | "B<size>" | "BR" | "BB" | "SR": the concrete reader type the library is handed (see R)
+	dr       io.Reader // the dressed reader, built by R
+	total    int
+}
+
+// R is the reader handed to the library. Without a dress prefix in the chunk spec it is the chunked transport itself;
+// with "<dress>/" the SAME transport stands behind another concrete type, because code that type-switches on its
+// io.Reader (a fast path for *bufio.Reader, *bytes.Reader, *bytes.Buffer ...) must still decide what the property says:
+// B<size> = bufio.NewReaderSize(transport, size); BR = bytes.NewReader, BB = bytes.NewBuffer, SR = strings.NewReader over
+// the whole data (chunking does not apply; tail must be "eof").
+func (r *chunkReader) R() io.Reader {
+	if r.dress == "" {
+		return r
+	}
+	if r.dr == nil {
+		switch {
+		case r.dress == "BR":
+			r.dr = bytes.NewReader(r.data)
+		case r.dress == "BB":
+			r.dr = bytes.NewBuffer(append([]byte(nil), r.data...))
+		case r.dress == "SR":
+			r.dr = strings.NewReader(string(r.data))
+		default:
+			n, _ := strconv.Atoi(r.dress[1:])
+			r.dr = bufio.NewReaderSize(r, n)
+		}
+	}
+	return r.dr
+}
+
+// used is the number of bytes the library has taken from what it was handed: what left the transport minus what the
+// dressing reader still holds
+func (r *chunkReader) used() int {
+	switch d := r.dr.(type) {
+	case *bufio.Reader:
+		return r.consumed - d.Buffered()
+	case *bytes.Reader:
+		return r.total - d.Len()
+	case *bytes.Buffer:
+		return r.total - d.Len()
+	case *strings.Reader:
+		return r.total - d.Len()
+	}
+	return r.consumed
 }
 
 // emptiesOf reports how many (0, nil) reads the transport has answered so far (0 for other readers): a caller
@@ -100,6 +147,10 @@ func (r *chunkReader) Read(p []byte) (int, error) {
 // chunk spec token: "-" whole, "r<k>" repeat k, or "a,b,c".
 func newChunkReader(data []byte, spec string, tail string) *chunkReader {
 	r := &chunkReader{data: append([]byte(nil), data...), fail: tail == "fail" || tail == "faildata", withData: tail == "eofdata" || tail == "faildata"}
+	r.total = len(data)
+	if i := strings.IndexByte(spec, '/'); i >= 0 {
+		r.dress, spec = spec[:i], spec[i+1:]
+	}
 	switch {
 	case spec == "-":
 	case strings.HasPrefix(spec, "r"):
@@ -151,7 +202,32 @@ func (c *ctx) randChunkSpec(n int) string {
 // recWriter records every Write call separately; optionally fails from call index failAt on.
 type recWriter struct {
 	calls  [][]byte
-	failAt int // -1: never
+	failAt int   // -1: never
+	err    error // the failure reported (default errFail)
+}
+
+// errTimeout is a failure of the kind a net.Conn reports when a write deadline has expired (net.Error, Timeout() true)
+type timeoutError struct{}
+
+func (timeoutError) Error() string   { return "verif: i/o timeout" }
+func (timeoutError) Timeout() bool   { return true }
+func (timeoutError) Temporary() bool { return true }
+
+var errTimeout error = timeoutError{}
+
+// failSpec: "-" never | "<k>" the k-th destination write and all later ones fail with errFail | "t<k>" the same with a
+// timeout-type error | "d<k>" with os.ErrDeadlineExceeded
+func (w *recWriter) setFail(spec string) {
+	if spec == "-" {
+		return
+	}
+	switch spec[0] {
+	case 't':
+		w.err, spec = errTimeout, spec[1:]
+	case 'd':
+		w.err, spec = os.ErrDeadlineExceeded, spec[1:]
+	}
+	w.failAt, _ = strconv.Atoi(spec)
 }
 
 func newRecWriter() *recWriter { return &recWriter{failAt: -1} }
@@ -159,6 +235,9 @@ func newRecWriter() *recWriter { return &recWriter{failAt: -1} }
 func (w *recWriter) Write(p []byte) (int, error) {
 	if w.failAt >= 0 && len(w.calls) >= w.failAt {
 		w.calls = append(w.calls, nil) // record the attempt (no bytes reach the peer)
+		if w.err != nil {
+			return 0, w.err
+		}
 		return 0, errFail
 	}
 	w.calls = append(w.calls, append([]byte(nil), p...))
